@@ -380,6 +380,65 @@ def pmap(fn, items, jobs=16, chunksize=1):
             yield r
 
 
+class CpuTimeout(Exception):
+    """the guarded block used more than its budget of this process's own CPU time"""
+
+
+class cpu_limit:
+    """context manager: raise CpuTimeout inside the block once the process has spent `seconds` of CPU time in it
+    (ITIMER_VIRTUAL: user CPU time of this process, so machine load does not shorten the budget)"""
+
+    def __init__(self, seconds):
+        self.seconds = seconds
+
+    def __enter__(self):
+        import signal
+
+        def _raise(sig, frame):
+            raise CpuTimeout('more than %s s of CPU time' % self.seconds)
+        self._old = signal.signal(signal.SIGVTALRM, _raise)
+        signal.setitimer(signal.ITIMER_VIRTUAL, self.seconds)
+        return self
+
+    def __exit__(self, *exc):
+        import signal
+        signal.setitimer(signal.ITIMER_VIRTUAL, 0)
+        signal.signal(signal.SIGVTALRM, self._old)
+        return False
+
+
+def in_child(fn, *args):
+    """run fn(*args) in a forked child and return its (picklable) result: whatever the call does to module state, caches and
+    patches stays in the child"""
+    import pickle
+    r, w = os.pipe()
+    pid = os.fork()
+    if pid == 0:
+        code = 0
+        try:
+            os.close(r)
+            try:
+                out = ('ok', fn(*args))
+            except Exception as e:
+                out = ('exc', '%s: %s' % (type(e).__name__, str(e)[:300]))
+            with os.fdopen(w, 'wb') as fh:
+                pickle.dump(out, fh)
+        except BaseException:
+            code = 1
+        finally:
+            os._exit(code)
+    os.close(w)
+    with os.fdopen(r, 'rb') as fh:
+        data = fh.read()
+    os.waitpid(pid, 0)
+    if not data:
+        raise RuntimeError('child process died without a result')
+    kind, val = pickle.loads(data)
+    if kind == 'exc':
+        raise RuntimeError('in child: ' + val)
+    return val
+
+
 class CanaryNotApplicable(Exception):
     """the source no longer contains the text a canary edits (the code under analysis changed there)"""
 
